@@ -17,15 +17,11 @@ func init() {
 			Kind: slip.MacroSymbol,
 			Name: "psetq",
 			Args: []*slip.DocArg{
+				{Name: "&rest"},
 				{
-					Name: "symbol",
+					Name: "pairs",
 					Type: "symbol",
-					Text: "The symbol to bind to the _value_.",
-				},
-				{
-					Name: "value",
-					Type: "object",
-					Text: "The value to assign to _symbol.",
+					Text: "Alternating _symbol_ and _value_ arguments. Each _symbol_, which is not evaluated, is bound to the _value_ after it.",
 				},
 			},
 			Return: "object",
